@@ -16,7 +16,12 @@ import (
 // slices after losing the recovery file that makes the exponents
 // non-contiguous. The oracle is C01's, unchanged.
 func init() {
-	Register(&Profile{Name: "pivot-stress", Prop: "C01", Weight: 1, Quick: 300, Thorough: 6000, Fn: pivotStress})
+	Register(&Profile{Name: "pivot-stress", Prop: "C01", Weight: 1, Quick: 300, Thorough: 6000, Fn: func(r *Run) { pivotStress(r, false) }})
+	// the same search used for C13: erasure patterns whose matrix is
+	// genuinely singular (the format's permitted failure), combined with
+	// recovery files cut at packet boundaries, must end in an error or a
+	// correct repair - never in a crash or a hang
+	Register(&Profile{Name: "singular-stress", Prop: "C13", Weight: 1, Quick: 300, Thorough: 6000, Fn: func(r *Run) { pivotStress(r, true) }})
 }
 
 type pivotKey struct{ n, gap int }
@@ -26,7 +31,7 @@ var (
 	pivotCache = map[pivotKey][][3]int{}
 )
 
-func pivotStress(r *Run) {
+func pivotStress(r *Run, singularMode bool) {
 	t := r.T
 	S := []int{4, 8, 16}[t.Draw(3, "S")]
 	n := 160 + 20*t.Draw(6, "slices")
@@ -88,9 +93,50 @@ func pivotStress(r *Run) {
 			r.Logf("recovery file %s lost (exponents %v)", p, e)
 		}
 	}
-	// damage the three pattern slices and a fourth one
+	// damage the three pattern slices and a fourth one (the full 4x4
+	// matrix is then almost surely regular but needs a row exchange); in
+	// singular mode, or sometimes, exactly the three: the matrix gopar
+	// has to invert is singular, the one failure the format permits
 	fourth := t.Draw(w.N, "fourth")
 	cols := []int{tri[0], tri[1], tri[2], fourth}
+	if singularMode || t.Bool(1, 4, "exact-singular") {
+		cols = cols[:3]
+		r.Probe("singular-erasure-pattern")
+	}
+	if singularMode {
+		// cut the last recovery file at a packet boundary so that the
+		// surviving exponents have a second gap
+		var last string
+		for p, e := range w.Exps {
+			if len(e) > 0 && e[0] == 3 {
+				last = p
+			}
+		}
+		if b, ok := w.Disk.Get(last); ok && t.Bool(2, 3, "cut-volume") {
+			pk, _ := ref.ParsePackets(b)
+			var recOff []int
+			for _, x := range pk {
+				if x.Type == ref.TypeRecvSlic {
+					recOff = append(recOff, x.Offset)
+				}
+			}
+			if len(recOff) > 2 {
+				cut := recOff[1+t.Draw(len(recOff)-1, "cut-at")]
+				// keep the packets before the cut and, sometimes, the last
+				// recovery packet as well (a hole in the middle)
+				nb := append([]byte(nil), b[:cut]...)
+				if t.Bool(1, 2, "keep-last") {
+					lastPkt := recOff[len(recOff)-1]
+					if lastPkt > cut {
+						nb = append(nb, b[lastPkt:]...)
+					}
+				}
+				w.Disk.Put(last, nb)
+				r.Logf("recovery file %s cut at packet boundary %d (%d of %d bytes kept)", last, cut, len(nb), len(b))
+				r.Probe("second-gap-in-exponents")
+			}
+		}
+	}
 	cur := append([]byte(nil), data...)
 	for _, c := range cols {
 		o := c * S
@@ -102,6 +148,12 @@ func pivotStress(r *Run) {
 	r.Logf("pivot-stress S=%d N=%d surviving exponents start %v, damaged slices %v (leading 3x3 minor vanishes)", S, w.N, exps, cols)
 	r.Probe("zero-leading-minor")
 	tr := w.TruthPar2()
+	if singularMode {
+		c13Observe(r, w, t.Bool(1, 2, "dc"))
+		r.Class = fmt.Sprintf("singular S=%d N=%d pattern=%v exps=%v", S, w.N, tri, tr.IntactExps)
+		r.Nontriv = true
+		return
+	}
 	rep := r.Repair2(w, w.Index, w.G, t.Bool(1, 2, "dc"), nil, SchedSpec{})
 	r.noPanic(rep)
 	r.oracleRepair2(w, rep, tr)
